@@ -12,6 +12,7 @@ INTERFACES = {}     # role -> InterfaceModel (opaque callables / duck-typed coll
 AXIOMS = []         # (name, builder(engine) -> z3 formula)     trusted, listed in evidence
 LEMMAS = {}         # name -> Lemma
 GLOBAL_HINTS = {}
+MODULE_FACTS = {}   # "path:name" -> [spec expr over X]: facts established by module initialisation (trusted, cross-checked natively)
 WF_FIELDS = []      # attribute names holding references for which "no dangling reference" / "**kwargs dict is unshared" is assumed   # "path:name" -> hint   (class of module-level singletons)
 
 
@@ -71,6 +72,10 @@ def contract(key, **kw):
 
 def fields(cls, **hints):
     FIELDS.setdefault(cls, {}).update(hints)
+
+
+def module_fact(key, expr):
+    MODULE_FACTS.setdefault(key, []).append(expr)
 
 
 def wf_fields(*names):
